@@ -260,6 +260,38 @@ def chainHint (m : Multi α σ ε) (s : m.S) : Nat → Nat → Nat → Option Na
     (fun s => m.boundSum s.2.2 + (m.n - s.2.1))
 end Adaptors
 
+/-! ## Arguments declared `ParameterKind::Enumerator` (`Iter.zip`, `Iter.chain`, `List.collect`, `Tuple.collect`) -/
+section EnumArgs
+variable {α σ ε : Type} [ValLike α]
+
+/-- an argument in a position whose declared kind is `Enumerator`: an iterator, or any other value -/
+inductive EArg (α σ ε : Type) where
+  | iter (it : Iter α σ ε)
+  | other
+
+/-- the loop of `NativeSignature::check` over such arguments: the first value that is not an iterator makes
+the VM raise `RuntimeError`; the native is not called and no iterator is touched -/
+def enumArgs : List (EArg α σ ε) → Except ErrClass (List (Iter α σ ε))
+  | [] => .ok []
+  | .other :: _ => .error .runtime
+  | .iter it :: rest =>
+    match enumArgs rest with
+    | .ok its => .ok (it :: its)
+    | .error c => .error c
+
+/-- `IterZip::call` behind its signature check (receiver first) -/
+def Iter.zipNew (it : Iter α σ ε) (args : List (EArg α σ ε)) : Except ErrClass (Iter α σ ε) :=
+  match enumArgs args with
+  | .ok others => .ok (Iter.zip (Multi.ofList (it :: others)))
+  | .error c => .error c
+
+/-- `IterChain::call` behind its signature check (receiver first) -/
+def Iter.chainNew (it : Iter α σ ε) (args : List (EArg α σ ε)) : Except ErrClass (Iter α σ ε) :=
+  match enumArgs args with
+  | .ok others => .ok (Iter.chain (Multi.ofList (it :: others)))
+  | .error c => .error c
+end EnumArgs
+
 /-! ## Terminal natives -/
 section Terminals
 variable {α σ ε : Type} [ValLike α]
@@ -291,6 +323,13 @@ def Iter.toRawVec (it : Iter α σ ε) (w : σ) : Fin (RawVec.W (RawVec α)) α 
   let start : RawVec α := match it.sizeHint with | some n => RawVec.capOnly n | none => RawVec.ofList []
   let r := it.collect w
   { res := r.res.map (listPush start), it := r.it, w := r.w }
+
+/-- `ListCollect::call` / `TupleCollect::call` behind their signature check (`collect(iter)`, one parameter
+declared `Enumerator`): `none` = the VM raised `RuntimeError` without calling the native. -/
+def collectArg (a : EArg α σ ε) (w : σ) : Option (Fin (List α) α σ ε) :=
+  match a with
+  | .iter it => some (it.collect w)
+  | .other => none
 
 /-- `IterEach` -/
 def eachLoop (it : Iter α σ ε) (f : Cb α σ ε) : Nat → it.S → σ → Except ε Unit × it.S × σ
